@@ -1281,7 +1281,14 @@ emitfunc(struct func *f, bool global)
 	struct inst **inst, **instend;
 	struct decl *p;
 	struct value *v;
+	struct gotolabel *g;
+	size_t i;
 
+	for (i = 0; i < f->gotos.cap; ++i) {
+		g = f->gotos.keys[i].str ? f->gotos.vals[i] : NULL;
+		if (g && !g->defined)
+			error(&tok.loc, "label '%s' is used but not defined in function '%s'", g->label->label.u.name, f->name);
+	}
 	if (f->end->jump.kind == JUMP_NONE) {
 		v = NULL;
 		/* implicitly return 0 from main if we reach the end of the function */
